@@ -116,16 +116,18 @@ def build(targets, timeout=3000, clean=False):
     return run(["lake", "build"] + targets, timeout)
 
 
-def audit(prop_id: str, timeout=1800):
-    """Returns dict(obligations=[...], discharged=[...], failed={name: reason}, log)."""
-    props_file = os.path.join(LEAN_DIR, "QuantemModel", "Props", f"{prop_id}.lean")
+def audit(prop_id: str, timeout=1800, module=None):
+    """Returns dict(obligations=[...], discharged=[...], failed={name: reason}, log).
+    `module` (default QuantemModel.Props.<prop_id>): the Props module whose theorems are the obligations."""
+    module = module or f"QuantemModel.Props.{prop_id}"
+    props_file = os.path.join(LEAN_DIR, module.replace(".", "/") + ".lean")
     names = theorems_in(props_file)
     res = {"obligations": names, "discharged": [], "failed": {}, "log": ""}
     if not names:
         res["failed"]["<none>"] = "no theorem found in Props file"
         return res
     with tempfile.NamedTemporaryFile("w", suffix=".lean", dir=LEAN_DIR, prefix=".audit_", delete=False) as f:
-        f.write(f"import QuantemModel.Props.{prop_id}\n")
+        f.write(f"import {module}\n")
         for n in names:
             f.write(f"#print axioms {n}\n")
         tmp = f.name
